@@ -554,12 +554,22 @@ def translate_block_smooth(cls, path):
             formula = t
     # loop shape: for i.. for j.. if point_i == point_j: (table only) else: for k in range(nb_blocks): gik, gjk = get_block(gi,k), get_block(gj,k)
     body = strip_doc(fn.body)
-    fors = [s for s in body if isinstance(s, ast.For)]
-    if len(fors) != 2:
-        raise Untranslatable(fn, "expected the table-initialisation loop and the double loop", path)
-    outer = fors[1]
-    if not (isinstance(outer.iter, ast.Call) and outer.iter.func.id == "enumerate" and list_ref(outer.iter.args[0], path) == "LPoints"):
-        raise Untranslatable(outer, "outer loop must enumerate self.list_of_points", path)
+    def enum_points(f):
+        return (isinstance(f.iter, ast.Call) and isinstance(f.iter.func, ast.Name) and f.iter.func.id == "enumerate"
+                and len(f.iter.args) == 1 and is_self_attr(f.iter.args[0], "list_of_points"))
+    fors = [s for s in body if isinstance(s, ast.For) and enum_points(s)]
+    if len(fors) != 1:
+        raise Untranslatable(fn, "expected exactly one top-level loop enumerating self.list_of_points", path)
+    outer = fors[0]
+    # every other top-level statement may only build names / tables (no constraint is created outside the loop)
+    for s in body:
+        if s is outer:
+            continue
+        for n in ast.walk(s):
+            if isinstance(n, ast.Compare) and not isinstance(n.ops[0], (ast.Is, ast.IsNot, ast.NotEq)):
+                raise Untranslatable(n, "comparison outside the double loop", path)
+            if isinstance(n, ast.Attribute) and n.attr in ("list_of_class_constraints", "list_of_class_psd", "append"):
+                raise Untranslatable(n, "constraint list touched outside the double loop", path)
     inner = [s for s in outer.body if isinstance(s, ast.For)]
     if len(inner) != 1 or not (isinstance(inner[0].iter, ast.Call) and list_ref(inner[0].iter.args[0], path) == "LPoints"):
         raise Untranslatable(outer, "inner loop must enumerate self.list_of_points", path)
@@ -595,23 +605,35 @@ def write_if_changed(path, text):
 
 
 def regenerate():
-    """regenerate every Gen/*.v; returns {file or item: True | error string}"""
+    """regenerate every Gen/*.v; returns {file:item -> True | error string}.
+    Gen/Classes.v is produced here; every other generated file by a plug-in module translator/tr_<name>.py
+    exposing translate() -> (file name, Coq text, {item: True | error string})."""
+    import importlib
     status = {}
     text, st = translate_classes()
     write_if_changed(os.path.join(GEN, "Classes.v"), text)
     for k, v in st.items():
         status["Classes.v:" + k] = v
-    for name in ("steps", "solveplan", "globals_", "handlers"):
-        fn = globals().get("translate_" + name)
-        if fn is None:
+    here = os.path.dirname(os.path.abspath(__file__))
+    for fn in sorted(os.listdir(here)):
+        if not (fn.startswith("tr_") and fn.endswith(".py")):
             continue
+        name = fn[:-3]
         try:
-            fname, text, st = fn()
+            mod = importlib.import_module("translator." + name)
+            fname, text, st = mod.translate()
             write_if_changed(os.path.join(GEN, fname), text)
+            status[fname] = True
             for k, v in st.items():
                 status[fname + ":" + k] = v
-        except Exception as e:   # fail closed
+        except Exception as e:   # fail closed: the file keeps no stale content
             status[name] = "translator crashed: %r" % (e,)
+            try:
+                stale = getattr(importlib.import_module("translator." + name), "OUTPUT", None)
+                if stale and os.path.exists(os.path.join(GEN, stale)):
+                    os.remove(os.path.join(GEN, stale))
+            except Exception:
+                pass
     return status
 
 
